@@ -119,6 +119,7 @@ FIXED = [
     ("C17", "be9193d", "`var a=new Uint16Array(1); a[0]=NaN` raised a Python ValueError, `a[0]=Infinity` an OverflowError, `new Float32Array(1)[0]=1e40` an OverflowError, and `a[0]='7'` stored 0: element conversion by int()/struct.pack on isinstance-narrowed values without ToNumber"),
     ("C20", "612acbc", "`var r=/a*/g; r.exec('b'); r.lastIndex` was 1 (ECMAScript: 0, the end of the empty match): exec/test stepped over an empty match themselves"),
     ("C20", "b4f512e", "`'abc'.split(/x*/)` was ['', 'a', 'b', 'c', ''], `'abc'.split(/b*/)` ['', 'a', '', 'c', ''], `''.split(/x*/)` two pieces: empty matches at the previous end and at the end of the string taken for separators"),
+    ("C17", "e8d1609", "`a.set(a.subarray(0, 3), 1)` on [1,2,3,4] over one buffer gave 1,1,1,1 (ECMAScript: 1,1,2,3): source elements overwritten before they were read"),
 ]
 
 
